@@ -34,7 +34,7 @@ def main():
             print('PATCH-FAILED', ns.patch)
             return 3
         env = dict(os.environ, VERIF_REPO=repo, VERIF_EVIDENCE_DIR=os.path.join(tmp, 'evidence'),
-                   VERIF_REPLAY_DIR=os.path.join(tmp, 'replays'), VERIF_SEED=ns.seed,
+                   VERIF_REPLAY_DIR=os.path.join(tmp, 'replays'), VERIF_WORK_DIR=os.path.join(tmp, 'work'), VERIF_SEED=ns.seed,
                    PYTHONDONTWRITEBYTECODE='1')
         if ns.pytest:
             r = subprocess.run(['/venv/bin/python', '-m', 'pytest', '-q', '-x', '-p', 'no:cacheprovider'],
